@@ -344,7 +344,7 @@ fn replay(case: &str) {
             (st.to_string(), case.to_string())
         }
     };
-    let mut run = Run::new("c16", "/tmp/vh-c16-replay");
+    let mut run = Run::new("c16", &crate::scratch("c16-replay"));
     if agent::replay(&mut run, case) || turn::replay(&mut run, case) {
         for f in &run.fails { println!("ORACLE-FAIL {} {}", f.signature, f.detail); }
         if run.fails.is_empty() { println!("no oracle failure"); }
